@@ -532,6 +532,11 @@ def main(tier, replay=None):
     if replay:
         return do_replay(run, replay)
     proof_ok = run.proof_stage()
+    # second tie: the linear-optics core is re-translated from REPO's source and proved equal to Optics/Maps.v (Gen/MapsGenEquiv.v)
+    import translate_stage
+    tr = translate_stage.translator_obligation(run)
+    if tr["status"] != "ok":
+        run.notes.append("translator obligation: " + json.dumps(translate_stage.replay_fields(tr))[:600])
     if not proof_ok:
         run.notes.append(run.proof_problem)
     run.cov["split_model"] = ("split (code before the repair of F29: a zero-length corrector splits into no piece; C16_corrector_split_angle_refuted)"
@@ -616,6 +621,9 @@ def main(tier, replay=None):
         run.violation({"kind": "correspondence", "broken": "rational model Lattice/Split.v (c16_check) disagrees with split() on this case",
                        "case": c, "pieces": observe(c)[0], "model_count": exact_n(c["L"], c["res"], c["cls"]),
                        "model": run.cov["split_model"]}, no_input=True)
+    elif tr["status"] != "ok":
+        # the source no longer translates to the proved model; none of this run's oracles found a failing input
+        run.violation(translate_stage.replay_fields(tr), no_input=True)
     elif not proof_ok:
         run.violation({"kind": "proof", "broken": run.proof_problem}, no_input=True)
     return run.finish("proof")
